@@ -182,7 +182,8 @@ Record itstep := mk_itstep {
   it_dt : Z;
   it_waits : list wait;
   it_lockwaits : list tmo;
-  it_T : tmo                  (* self.__timeout before the call *)
+  it_T : tmo;                 (* self.__timeout before the call *)
+  it_lockdt : Z               (* how long the blocking lock.acquire took (0 if there was none) *)
 }.
 
 Fixpoint iter_run (F : nat) (ri : tmo) (N bufsize fuel : nat) (T : tmo) (locks : list lockans)
@@ -192,7 +193,33 @@ Fixpoint iter_run (F : nat) (ri : tmo) (N bufsize fuel : nat) (T : tmo) (locks :
   | l :: locks' =>
       let c := client_recv F ri N bufsize fuel T l buf eof s sels in
       let r := cl_rv c in
-      let st := mk_itstep (rv_out r) (rv_dt r) (rv_waits r) (cl_lockwaits c) T in
+      let st := mk_itstep (rv_out r) (rv_dt r) (rv_waits r) (cl_lockwaits c) T (lk_dt (lock_with_timeout T l)) in
       let T' := match rv_out r with RvPkt _ => recompute T (rv_dt r) | _ => T end in
       st :: iter_run F ri N bufsize fuel T' locks' (rv_buf r) (rv_eof r) (rv_sock r) (rv_sels r)
+  end.
+
+(* ---- AsyncClientRecvIterator.__anext__ (clients/_iter.py):
+       with backend.timeout(self.__timeout), ElapsedTime() as elapsed: packet = await client.recv_packet()
+       except OSError: raise StopAsyncIteration
+       self.__timeout = elapsed.recompute_timeout(self.__timeout)
+   The environment says when the next packet is there: after d ticks (0 = already buffered, recv_packet does not
+   suspend) or a connection error at once.  The backend's timeout scope fires after self.__timeout ticks. *)
+Inductive arrival := ArrAfter (d : Z) | ArrErr.
+
+Record astep := mk_astep {
+  as_out : Z;        (* 0 packet | E_TIMEOUT | E_CONN   (the last two are StopAsyncIteration) *)
+  as_dt : Z;         (* virtual time the __anext__ took *)
+  as_T : tmo         (* self.__timeout before the call *)
+}.
+
+Definition arrives_in_time (T : tmo) (d : Z) : bool :=
+  match T with None => true | Some t => (d =? 0) || (d <? t) end.
+
+Fixpoint aiter_run (T : tmo) (arr : list arrival) : list astep :=
+  match arr with
+  | [] => []
+  | ArrErr :: rest => mk_astep E_CONN 0 T :: aiter_run T rest
+  | ArrAfter d :: rest =>
+      if arrives_in_time T d then mk_astep 0 d T :: aiter_run (recompute T d) rest
+      else mk_astep E_TIMEOUT (match T with Some t => t | None => 0 end) T :: aiter_run T rest
   end.
